@@ -17,8 +17,8 @@ B64 = 'ABCDEFGHIJKLMNOPQRSTUVWXYZabcdefghijklmnopqrstuvwxyz0123456789+/'
 
 
 def pairs_gen(rng):
-    users = ['user', 'u2', 'us', 'admin', 'ü', '日本', '', 'a b', 'x' * 20, 'u\ufffdx']
-    pws = ['pa:ss', '', 'p', 'pass', ':', 'p:', 'é', 'sec ret', 'user', 'pa', 'pass\ufffdword', '\ufffd']          # U+FFFD is an ordinary character of a credential
+    users = ['user', 'u2', 'us', 'admin', 'ü', '日本', '', 'a b', 'x' * 20, 'u\ufffdx', '管理者' * rng.choice([1, 10, 20]), 'svc-' + 'a' * rng.choice([60, 100, 123, 124, 125, 200])]          # no length limit on a credential (short of the 1 KiB request head)
+    pws = ['pa:ss', '', 'p', 'pass', ':', 'p:', 'é', 'sec ret', 'user', 'pa', 'pass\ufffdword', '\ufffd', 'correct horse battery staple ' * rng.choice([1, 4, 5, 9]), 'ぱすわーど' * rng.choice([3, 9, 18]), 'k' * rng.choice([64, 127, 128, 129, 255, 256, 300])]          # U+FFFD is an ordinary character of a credential
     if rng.random() < 0.3: return [[rng.choice(users), rng.choice(pws)] for _ in range(rng.choice([1, 2]))] + [[rng.choice(users[:4]), rng.choice(pws)] for _ in range(2)]      # one user-id under several passwords
     return [[rng.choice(users), rng.choice(pws)] for _ in range(rng.choice([1, 1, 2, 3, 4]))]
 
